@@ -126,6 +126,44 @@ func nilOneMapValue(m interface{}, ref *dynamicpb.Message) bool {
 	return false
 }
 
+// nilOneListElement replaces one element of a repeated message field of the Go message by a nil pointer and
+// the same element of the reference value by an EMPTY message: a nil element of a list is written as an
+// empty element (the list keeps its length), so both still denote the same message.
+func nilOneListElement(r *prng.Rng, m interface{}, ref *dynamicpb.Message) bool {
+	v := reflect.ValueOf(m)
+	if v.Kind() != reflect.Ptr || v.IsNil() || v.Elem().Kind() != reflect.Struct {
+		return false
+	}
+	v = v.Elem()
+	for i := 0; i < v.NumField(); i++ {
+		f := v.Field(i)
+		if f.Kind() != reflect.Slice || f.Len() == 0 || f.Type().Elem().Kind() != reflect.Ptr || f.Type().Elem().Elem().Kind() != reflect.Struct || !f.CanSet() {
+			continue
+		}
+		parts := strings.Split(v.Type().Field(i).Tag.Get("protobuf"), ",")
+		if len(parts) < 2 {
+			continue
+		}
+		num, err := strconv.Atoi(parts[1])
+		if err != nil {
+			continue
+		}
+		fd := ref.Descriptor().Fields().ByNumber(protoreflect.FieldNumber(num))
+		if fd == nil || !fd.IsList() || fd.Message() == nil || ref.Get(fd).List().Len() != f.Len() {
+			continue
+		}
+		// an element with required fields would turn "uninitialised" by being emptied: leave those lists alone
+		if proto.CheckInitialized(dynamicpb.NewMessage(fd.Message())) != nil {
+			continue
+		}
+		j := r.Intn(f.Len())
+		f.Index(j).Set(reflect.Zero(f.Type().Elem()))
+		ref.Mutable(fd).List().Set(j, protoreflect.ValueOfMessage(dynamicpb.NewMessage(fd.Message())))
+		return true
+	}
+	return false
+}
+
 // ---------- C04 / C05 / C17(marshal side) ----------
 
 func (rn *runner) marshalCase(t *Target, name string, ref *dynamicpb.Message, label string) {
@@ -140,6 +178,11 @@ func (rn *runner) marshalCase(t *Target, name string, ref *dynamicpb.Message, la
 	}
 	if rn.r.Chance(1, 5) && nilOneMapValue(m, ref) {
 		label += " (one message-valued map entry set to nil)"
+	}
+	// (not for Gogo: its runtime treats a nil element of a repeated message field as an invalid message —
+	// "repeated field has nil element" — so such a value is not a message of that runtime)
+	if t.Runtime != "gogo" && rn.r.Chance(1, 5) && nilOneListElement(rn.r, m, ref) {
+		label += " (one element of a repeated message field set to nil)"
 	}
 	initialized := proto.CheckInitialized(ref) == nil
 	desc := map[string]interface{}{"type": t.where(name), "case": label, "value": trunc(fmt.Sprint(ref), 300), "reference_bytes": trunc(hx(refBytes(ref)), 300)}
